@@ -19,6 +19,16 @@ func init() {
 			if tier == "thorough" {
 				n = 60000
 			}
+			// sysex lengths against buffers above the default (every boundary length; thorough: every length)
+			genSysexSweep(r, tier, func(buf int, w []wireByte) {
+				cs, exp := cutWire(r, w, r.Pick(0, 3, 3))
+				c := liveCase(cs, exp, buf, w)
+				c.Tags = append(c.Tags, "sysex-length-sweep")
+				emit(c)
+			})
+			for _, op := range bigSysexOps(r, tier) {
+				emit(Case{Op: op, Tags: []string{"big-sysex"}, NonTrivial: true})
+			}
 			for i := 0; i < n; i++ {
 				buf := r.Pick(0, 8, 16, 16, 32, 5, 3)
 				w := genWire(r, buf, r.Range(1, 12), r.Pick(0, 5, 25))
@@ -125,6 +135,10 @@ func liveCase(cs []liveChunk, exp []liveMsg, buf int, w []wireByte) Case {
 }
 
 func runC04(c Case, m *Model) (v Verdict) {
+	if strings.HasPrefix(c.Op, "live.big ") {
+		runBigSysex(c.Op, &v)
+		return
+	}
 	f := fields(c.Op)
 	var cfg, buf int
 	fmt.Sscanf(f["cfg"], "%d", &cfg)
